@@ -514,7 +514,8 @@ int cif_container_get_frame(
 
         temp->code = NULL;  /* not touched by the normalizer when it fails */
         temp->code_orig = NULL;
-        result = cif_normalize_name(code, -1, &(temp->code), CIF_INVALID_FRAMECODE);
+        /* no validation: the parser can leniently create frames with invalid codes, and must be able to find them again */
+        result = cif_normalize(code, -1, &(temp->code));
         if (result != CIF_OK) {
             SET_RESULT(result);
         } else {
